@@ -306,11 +306,11 @@ ob("is_targeted_{i}", "chess::verif_chess::inst::is_targeted::sq{i}", ["C01"],
 for _o in OBS:
     if _o["name"] in ("push_contract_normal", "roundtrip_castling_short", "roundtrip_enpassant"):
         _o["props"] = _o["props"] + ["C15"]      # arrayvec push_unchecked / truncate / last().unwrap_unchecked debug assertions and pointer checks
-for _fam, _txt, _n in [("gen_rook", "rook", 6), ("gen_bishop", "bishop", 6), ("gen_queen", "queen", 6), ("gen_knight", "knight", 6),
-                       ("gen_pawn", "pawn (incl. double push, promotions, e.p.)", 8), ("gen_king", "king (steps, both castlings vs is_targeted oracle)", 8)]:
+for _fam, _txt, _n in [("gen_rook", "rook", 12), ("gen_bishop", "bishop", 12), ("gen_queen", "queen", 12), ("gen_knight", "knight", 12),
+                       ("gen_pawn", "pawn (incl. double push, promotions, e.p.)", 14), ("gen_king", "king (steps, both castlings vs is_targeted oracle)", 14)]:
     ob(_fam + "_{i}", f"chess::verif_chess::inst::{_fam}::sq{{i}}", ["C01"],
        f"forall board/state with a {_txt} of the side to move on sq: generated == geometrically valid moves (sound, complete, no repeats)",
-       _FGEN, instances=SQ, quick_instances=_n, quick_fixed=["00", "04", "12", "27", "52", "60", "63"][: _n - 2], timeout=900, mem_est_gb=3,
+       _FGEN, instances=SQ, quick_instances=_n, quick_fixed=["00", "07", "56", "63", "04", "60", "12", "52", "24", "31", "27", "36"][: _n - 2], timeout=900, mem_est_gb=3,
        complete=True)
 ob("shortcut_lemma_{i}", "chess::verif_chess::inst::shortcut_lemma::sq{i}", ["C01"],
    "rules only: king on sq not attacked, pseudo-legal non-king Normal move from a non-aligned square => king still not attacked",
